@@ -518,5 +518,81 @@ func wswriteDirect(seed uint64, tier string, args []string, w *bufio.Writer) {
 			}
 		}()
 	}
-	fmt.Fprintf(w, "DIRECT-STAT {\"wswrite_failed_write_trials\": %d, \"wswrite_failed_write_keys\": %d}\n", trials, fails)
+	// every payload size, densely: one stream whose write buffer grows as the sizes ascend (each frame flushed and compared at
+	// once), and fresh streams for every size around the initial capacity of the write buffer — a frame that ends a few bytes
+	// past what the buffer happens to hold must still be complete on the wire
+	swept := 0
+	sweep := func(s *websocket.Stream, ms *memStream, n int, how string) bool {
+		p := make([]byte, n)
+		for j := range p {
+			p[j] = byte(j*7 + n)
+		}
+		ms.out = ms.out[:0]
+		var e error
+		switch how {
+		case "write":
+			e = s.Write(p, websocket.TypeBinary)
+		default:
+			f := s.AcquireFrame()
+			f.SetFIN().SetOpcode(websocket.OpcodeText).SetPayload(p)
+			e = s.WriteFrame(f)
+		}
+		swept++
+		frames, rest := wsParseWire(ms.out)
+		if e != nil || len(rest) != 0 || len(frames) != 1 || !frames[0].fin || !frames[0].masked || !bytes.Equal(frames[0].payload, p) {
+			got := -1
+			if len(frames) > 0 {
+				got = len(frames[0].payload)
+			}
+			report("size-sweep", "%s of a %d-byte payload: err=%v, %d bytes on the wire = %d frame(s) + %d stray bytes, first payload %d bytes", how, n, e, len(ms.out), len(frames), len(rest), got)
+			return false
+		}
+		return true
+	}
+	func() {
+		defer func() {
+			if p := recover(); p != nil {
+				report("panic", "size sweep panicked: %v", p)
+			}
+		}()
+		fresh := func() (*websocket.Stream, *memStream) {
+			s, err := websocket.NewWebsocketStream(wswriteIO, nil, websocket.RoleClient)
+			if err != nil {
+				panic(err)
+			}
+			ms := newMemStream()
+			if err := s.VerifAttach(ms); err != nil {
+				panic(err)
+			}
+			s.SetMaxMessageSize(1 << 20)
+			return s, ms
+		}
+		for _, how := range []string{"write", "frame"} {
+			s, ms := fresh()
+			top := 20000
+			if tier == "thorough" {
+				top = 140000
+			}
+			for n := 0; n <= top; n++ {
+				if !sweep(s, ms, n, how) {
+					break
+				}
+			}
+			for n := 3900; n <= 4200; n++ {
+				fs, fms := fresh()
+				if !sweep(fs, fms, n, how) {
+					break
+				}
+			}
+			// descending and irregular orders on one stream
+			s, ms = fresh()
+			for i := 0; i < 3000; i++ {
+				n := r.pick(4096, 8192, 5370, 6906, 65536, 73720)
+				if !sweep(s, ms, n-r.intn(40), how) {
+					break
+				}
+			}
+		}
+	}()
+	fmt.Fprintf(w, "DIRECT-STAT {\"wswrite_failed_write_trials\": %d, \"wswrite_size_sweep_frames\": %d, \"wswrite_failed_write_keys\": %d}\n", trials, swept, fails)
 }
